@@ -912,7 +912,8 @@ META = {
             "is seeded from `seed`, the pipeline order merge -> localize -> clean is a must-pass-through property of the CFG, "
             "clusters only shrink after merging, prototype cells are built periodic in >= 2 directions, the zero-vector guard "
             "dominates the cell-dependent operations, merge filters by species, cleaning keeps one component, every public "
-            "parameter reaches its consumer. Disjointness/connectivity on concrete inputs is not decided.",
+            "parameter reaches its consumer. Disjointness/connectivity on concrete inputs is not decided."
+            " Also: instance state is call-local (no result depends on earlier calls), localisation removes a shared atom from all but one cluster, index collections are sets, distances/region search run on the wrapped copy, atoms outside the cell along non-periodic axes always trigger the enlargement (test folded on a grid of sign patterns), and every exception handler on the reachable paths is one of a confirmed table.",
     "note": "trusted: CPython ast; the repository model (call resolution, receiver typing); API tables for ASE/numpy mutators "
             "and fresh-value getters; deterministic hashing of ints.",
     "technique": "effect/alias analysis + must-pass-through CFG queries + def-use forwarding + nondeterminism-source scan",
